@@ -13,6 +13,10 @@ DOM = [["i", 0], ["i", 1], ["b", True], ["b", False], ["f", "1/1"], ["i", 2], ["
        ["t", [1]]]
 
 
+# values offered to the blocks (puts, initdef, expired, restored): the domain plus an unhashable one
+VALS = DOM + [["m", [["k", 1]]]]
+
+
 class SubInput(edzed.Input):
     """a trivial subclass, as an application would write it to add a method or a default"""
 
@@ -243,16 +247,16 @@ def gen_cases(run):
     n = 2500 if run.tier == 'quick' else 60000
     for _ in range(n):
         t = rand_tables(rng)
-        puts = [rng.choice(DOM) for _ in range(rng.choice([0, 1, 2, 3, 4, 6]))]
+        puts = [rng.choice(VALS) for _ in range(rng.choice([0, 1, 2, 3, 4, 6]))]
         if rng.random() < 0.7:
-            initdef = rng.choice(DOM) if rng.random() < 0.75 else ["undef"]
-            restored = rng.choice(DOM) if rng.random() < 0.4 else None
+            initdef = rng.choice(VALS) if rng.random() < 0.75 else ["undef"]
+            restored = rng.choice(VALS) if rng.random() < 0.4 else None
             cases.append(dict(kind='input', tables=t, initdef=initdef, restored=restored, puts=puts))
         else:
             cases.append(dict(kind='inputexp', tables=t,
-                              initdef=rng.choice(DOM) if rng.random() < 0.6 else ["undef"],
-                              expired=rng.choice(DOM), puts=puts,
-                              restored=rng.choice(DOM) if rng.random() < 0.3 else None))
+                              initdef=rng.choice(VALS) if rng.random() < 0.6 else ["undef"],
+                              expired=rng.choice(VALS), puts=puts,
+                              restored=rng.choice(VALS) if rng.random() < 0.3 else None))
     # every presence combination of the three validators x every single put (exhaustive)
     for mask in range(8):
         t = dict(allowed=[["i", 1], ["i", 0], ["s", "a"]] if mask & 1 else None,
